@@ -56,7 +56,7 @@ pub fn validate(p: &Program) -> bool {
     }
     fn expr(x: &Expr, scope: &mut Vec<VarId>, globals: &HashSet<VarId>) -> bool {
         match &x.kind {
-            EKind::Int(_) | EKind::Float(_) | EKind::Str(_) | EKind::Bool(_) | EKind::MaybeNone => true,
+            EKind::Int(_) | EKind::Float(_) | EKind::Str(_) | EKind::Bool(_) | EKind::MaybeNone | EKind::Raw(_) => true,
             EKind::Var(v) => scope.contains(v) || globals.contains(v),
             EKind::Bin(_, a, b) | EKind::AssertEq(a, b) => expr(a, scope, globals) && expr(b, scope, globals),
             EKind::Neg(a) | EKind::Not(a) | EKind::Field(a, _) | EKind::TupleIdx(a, _) | EKind::MaybeJust(a) => {
@@ -154,7 +154,7 @@ pub fn validate(p: &Program) -> bool {
             Stmt::Ret(Some(x)) => expr(x, scope, globals),
             Stmt::Block(b) => block(b, scope, globals),
             Stmt::Assert(a, b) => expr(a, scope, globals) && expr(b, scope, globals),
-            Stmt::Break | Stmt::Continue | Stmt::Ret(None) | Stmt::Unreachable(_) => true,
+            Stmt::Break | Stmt::Continue | Stmt::Ret(None) | Stmt::Unreachable(_) | Stmt::Raw(_) => true,
         }
     }
     for g in &p.globals {
@@ -221,6 +221,10 @@ impl<'a> Mut<'a> {
         // delete statement i
         let mut i = 0;
         while i < b.stmts.len() {
+            if matches!(b.stmts[i], Stmt::Raw(_)) {
+                i += 1;
+                continue;
+            }
             if self.site() {
                 b.stmts.remove(i);
                 return;
@@ -303,12 +307,12 @@ impl<'a> Mut<'a> {
                     self.expr(b);
                 }
             }
-            Stmt::Break | Stmt::Continue | Stmt::Ret(None) | Stmt::Unreachable(_) => {}
+            Stmt::Break | Stmt::Continue | Stmt::Ret(None) | Stmt::Unreachable(_) | Stmt::Raw(_) => {}
         }
     }
 
     fn expr(&mut self, x: &mut Expr) {
-        if self.done {
+        if self.done || matches!(x.kind, EKind::Raw(_)) {
             return;
         }
         // replace by the default literal of its type
@@ -362,7 +366,7 @@ impl<'a> Mut<'a> {
             return;
         }
         match &mut x.kind {
-            EKind::Int(_) | EKind::Float(_) | EKind::Str(_) | EKind::Bool(_) | EKind::Var(_) | EKind::MaybeNone => {}
+            EKind::Int(_) | EKind::Float(_) | EKind::Str(_) | EKind::Bool(_) | EKind::Var(_) | EKind::MaybeNone | EKind::Raw(_) => {}
             EKind::Bin(_, a, b) | EKind::AssertEq(a, b) => {
                 self.expr(a);
                 self.expr(b);
